@@ -150,7 +150,7 @@ func mkBool(t *Term) value {
 // containsSym reports whether v (deeply, without following pointers) holds a symbolic part.
 func containsSym(v value) bool {
 	switch x := v.(type) {
-	case symv, symb, opaqueStr:
+	case symv, symb, opaqueStr, decStr:
 		return true
 	case array:
 		for _, e := range x {
@@ -343,6 +343,14 @@ func (i *interpreter) symEq(t types.Type, x, y value) *Term {
 		return i.symEq(xv.t, xv.v, yv.v)
 	case opaqueStr:
 		panic(unsupported{"comparison of opaque (symbolic-dependent) string: " + xv.desc})
+	case decStr:
+		if yd, ok := y.(decStr); ok {
+			return Eq(xv.t, yd.t)
+		}
+		panic(unsupported{"comparison of a decimal token with a string"})
+	}
+	if _, ok := y.(decStr); ok {
+		panic(unsupported{"comparison of a decimal token with a string"})
 	}
 	if _, ok := y.(opaqueStr); ok {
 		panic(unsupported{"comparison of opaque (symbolic-dependent) string"})
